@@ -341,7 +341,30 @@ impl ParseWarningKind {
                 pltotf_message: "The design size must be at least 1".into(),
                 pltotf_section: (88, 1),
             },
-            _ => todo!("unhandled {self:?}"),
+            DecimalNumberIsTooBig => Data {
+                rule: "decimal numbers must be less than 2048 in magnitude".into(),
+                problem: "this decimal number is too big".into(),
+                action: "0 or 1 will be used instead",
+                pltotf_message: "Real constants must be less than 2048".into(),
+                pltotf_section: (64, 1),
+            },
+            LigTableIsTooBig => Data {
+                rule: format![
+                    "the lig table can contain at most {} instructions",
+                    super::MAX_LIG_KERN_INSTRUCTIONS
+                ],
+                problem: "the lig table is too big".into(),
+                action: "this instruction will be ignored",
+                pltotf_message: "Sorry, LIGTABLE too long for me to handle".into(),
+                pltotf_section: (101, 1),
+            },
+            NotReallySevenBitSafe => Data {
+                rule: "a seven-bit-safe font never produces a character bigger than 127 from smaller characters".into(),
+                problem: "the font is not seven-bit-safe".into(),
+                action: "the seven-bit-safe flag will be false in the .tfm file",
+                pltotf_message: "The font is not really seven-bit-safe!".into(),
+                pltotf_section: (110, 1),
+            },
         }
     }
 }
